@@ -152,6 +152,10 @@ pub struct ScriptedEntity<D: ChunkData = Bytes> {
     pub _d: std::marker::PhantomData<fn() -> D>,
     pub len: u64,
     pub etag: Option<HeaderValue>,
+    /// volatile entity: what `etag()` returns from its second call on (the resource was replaced
+    /// between two reads inside one `serve`)
+    pub etag2: Option<HeaderValue>,
+    pub etag_calls: std::sync::atomic::AtomicUsize,
     pub mtime: Option<SystemTime>,
     pub hdrs: Vec<(HeaderName, HeaderValue)>,
     pub scripts: Vec<Script>,
@@ -166,6 +170,13 @@ impl<D: ChunkData> ScriptedEntity<D> {
             Some("tag") => Some(
                 HeaderValue::from_bytes(ent["etag"]["s"].as_str().unwrap().as_bytes())
                     .expect("etag header value"),
+            ),
+            _ => None,
+        };
+        let etag2 = match ent["etag2"]["k"].as_str() {
+            Some("tag") => Some(
+                HeaderValue::from_bytes(ent["etag2"]["s"].as_str().unwrap().as_bytes())
+                    .expect("etag2 header value"),
             ),
             _ => None,
         };
@@ -193,6 +204,8 @@ impl<D: ChunkData> ScriptedEntity<D> {
             _d: std::marker::PhantomData,
             len,
             etag,
+            etag2,
+            etag_calls: std::sync::atomic::AtomicUsize::new(0),
             mtime,
             hdrs,
             scripts: scripts
@@ -416,6 +429,12 @@ impl<D: ChunkData> http_serve::Entity for ScriptedEntity<D> {
     }
 
     fn etag(&self) -> Option<HeaderValue> {
+        let n = self.etag_calls.fetch_add(1, std::sync::atomic::Ordering::SeqCst);
+        if n > 0 {
+            if let Some(e2) = &self.etag2 {
+                return Some(e2.clone());
+            }
+        }
         self.etag.clone()
     }
 
